@@ -23,13 +23,23 @@ RULE = ("programs of 1-6 Echo commands (string, number, boolean, path, data type
         "source and through add_command (names and Command objects as references); plus random EEMS models from source and API; "
         "distinct by (builder, parameter kinds used, string/number feature classes)")
 REQUIRED_COUNTERS = ["round_trips", "values_compared", "result_pairs_compared", "fixpoints_checked", "to_file_checks", "eems2_histories", "cli_runs_of_saved_files"]
-ASSUMPTIONS = ["layout of the text and key order of metadata are not judged", "NaN/inf and type objects as argument values are never generated",
+ASSUMPTIONS = ["layout of the text and key order of metadata are not judged", "type objects as argument values are never generated; non-finite numbers are compared by their bits",
                "result names are identifiers"]
 
 STR_POOL = ["plain", "two words", "", " lead", "trail ", "  ", 'say "hi"', "it's", "back\\slash", "C:\\path\\to\\file.csv", "a,b", "k: v", "[x]", "(y)", "a = b", "# not a comment",
             "é ü Ω 日本 —", "tab\there", "line\nbreak", "ls\u2028sep ps\u2029", "zero\u200bwidth", "bom\ufeffinside", "ideographic\u3000space", "ff\x0cvt\x0bnel\x85", "nul-free ctrl \x01\x1f\x7f", "emoji 😀",
-            "cr\rlf", 'mix "\' \\ #:,=()[]', "\\", '"', "'", "\\\\n", "ends with backslash\\", "100%", "True", "1.5", "12", "Float", "1e-05", "01234", "007", "1.50", "+5", ".5", "1e3", "-0", "0x10", "1_000", "inf", "nan", " 12 "]
+            "cr\rlf", 'mix "\' \\ #:,=()[]', "\\", '"', "'", "\\\\n", "ends with backslash\\", "100%", "True", "1.5", "12", "Float", "1e-05", "01234", "007", "1.50", "+5", ".5", "1e3", "-0", "0x10", "1_000", "inf", "nan", " 12 ",
+            "e\u0301 not in composed form", "\u212b angstrom sign", "\u2126 ohm sign \ufb01 ligature", "\u1e9b\u0323 long s with dots"]
 NUM_POOL = [0, 1, -1, 12, 2 ** 70, -2 ** 63, 0.0, -0.0, 1.5, 1e-05, 1e+22, 5e-324, 1.7976931348623157e+308, 0.1, 123456789.125, 2.5e-7, 1e16, 1e15]
+
+
+NONFINITE = {"$inf": float("inf"), "$-inf": float("-inf"), "$nan": float("nan")}       # spelled out in cases (JSON), converted when the program is built
+
+
+def _unspell(v):
+    if isinstance(v, list):
+        return [_unspell(x) for x in v]
+    return NONFINITE.get(v, v) if isinstance(v, str) else v
 
 
 def gen_echo_program(rng):
@@ -44,7 +54,7 @@ def gen_echo_program(rng):
             if k == "S":
                 args[k] = rng.choice(STR_POOL)
             elif k == "N":
-                args[k] = rng.choice(NUM_POOL)
+                args[k] = rng.choice(NUM_POOL) if rng.random() < 0.92 else rng.choice(sorted(NONFINITE))
             elif k == "B":
                 args[k] = rng.choice([True, False, "true", "False", 0, 1])
             elif k == "P":
@@ -52,7 +62,7 @@ def gen_echo_program(rng):
             elif k == "T":
                 args[k] = rng.choice(["Float", "Integer"])
             elif k == "LN":
-                args[k] = [rng.choice(NUM_POOL) for _ in range(rng.randint(0, 4))]
+                args[k] = [rng.choice(NUM_POOL) if rng.random() < 0.92 else rng.choice(sorted(NONFINITE)) for _ in range(rng.randint(0, 4))]
             elif k == "LS":
                 args[k] = [rng.choice(STR_POOL) for _ in range(rng.randint(0, 4))]
             elif k == "LB":
@@ -109,6 +119,10 @@ def echo_ast(cmds, rng):
                 val = {"t": "list", "items": [{"t": "ustr", "v": str(x), "cls": "word"} for x in v], "trail": False}
             elif kind == "tuple":
                 val = {"t": "tuple", "pairs": [[{"v": kk, "q": '"'}, {"t": "qstr", "v": vv, "q": '"'}] for kk, vv in v.items()], "trail": False} if v else {"t": "list", "items": [], "trail": False}
+            elif (kind == "number" and isinstance(v, str) and v in NONFINITE) or (kind == "list:number" and any(isinstance(x, str) for x in v)):
+                # in a command file a non-finite number is the bare word the serialiser itself writes
+                word = lambda x: {"t": "ustr", "v": x[1:], "cls": "word"} if isinstance(x, str) else models.number_ast(x)
+                val = word(v) if isinstance(v, str) else {"t": "list", "items": [word(x) for x in v], "trail": False}
             else:
                 val = models.value_ast(v, kind, None)
                 _force_quotes(val)
@@ -136,6 +150,9 @@ def build(case, d):
         cls = prog.find_command_class("Echo")
         for c in case["commands"]:
             args = copy.deepcopy(c["args"])
+            for k in ("N", "LN"):
+                if k in args:
+                    args[k] = _unspell(args[k])
             if case["builder"] == "api-objects":
                 def objs(x):
                     if isinstance(x, list):
